@@ -70,4 +70,36 @@ theorem inv_run {acts : List Act} : ∀ {s s' : St}, Inv s → run true s acts =
     | none => simp [hs] at hr
     | some s1 => rw [hs] at hr; exact ih (inv_step h hs) hr
 
+/-- with TryLock the serving goroutine is never parked and handles one stanza per step -/
+theorem serveRun_tryLock : ∀ (inbox : List Stanza) (s : DS), s.serveParked = false → s.inbox = inbox →
+    (serveRun true inbox.length s).inbox = [] ∧ (serveRun true inbox.length s).serveParked = false ∧
+    ((Stanza.close ∈ inbox ∨ s.closeAnswered) → (serveRun true inbox.length s).closeAnswered = true) ∧
+    ((Stanza.ack ∈ inbox ∨ s.appReturned) → (serveRun true inbox.length s).appReturned = true) := by
+  intro inbox
+  induction inbox with
+  | nil => intro s hp hi; simp_all [serveRun]
+  | cons x xs ih =>
+    intro s hp hi
+    cases x with
+    | ack =>
+      have hstep : serveStep true s = some { s with inbox := xs, appInFlush := false, appReturned := true } := by
+        simp [serveStep, hp, hi]
+      have := ih { s with inbox := xs, appInFlush := false, appReturned := true } hp rfl
+      simp only [List.length_cons, serveRun, hstep]
+      refine ⟨this.1, this.2.1, ?_, ?_⟩
+      · intro h; apply this.2.2.1; rcases h with h | h
+        · simp at h; exact Or.inl h
+        · exact Or.inr h
+      · intro _; exact this.2.2.2 (Or.inr rfl)
+    | close =>
+      have hstep : serveStep true s = some { s with inbox := xs, closeAnswered := true } := by
+        simp [serveStep, hp, hi]
+      have := ih { s with inbox := xs, closeAnswered := true } hp rfl
+      simp only [List.length_cons, serveRun, hstep]
+      refine ⟨this.1, this.2.1, ?_, ?_⟩
+      · intro _; exact this.2.2.1 (Or.inr rfl)
+      · intro h; apply this.2.2.2; rcases h with h | h
+        · simp at h; exact Or.inl h
+        · exact Or.inr h
+
 end XmppModel.IbbWriteSide
